@@ -2127,9 +2127,12 @@ class tensor:
         # Will the size change? If so we first need to resize x
         n = self.ndims
         sliceCheck = []
-        for element in subs:
+        for dim, element in enumerate(subs):
             if isinstance(element, slice):
-                if element.stop is None:
+                if element.stop is None and dim < n:
+                    # Unbounded slice of an existing mode never grows it
+                    sliceCheck.append(self.shape[dim] - 1)
+                elif element.stop is None:
                     sliceCheck.append(1)
                 else:
                     sliceCheck.append(element.stop - 1)
